@@ -283,6 +283,19 @@ class C09(FMonitor):
                 led.V("C09", "non-blocking-never-waits", "non-blocking %s %s is waiting for space on %s at the end of instant %s instead of dropping the item"
                       % (tname(n), n.id, t.edge.id, now), node=tname(n), waiting_on_full_edge=True)
                 return
+        # a blocking node waits only while no out-edge accepts the item: space that is merely taken by a stale reservation of
+        # the waiting node itself (granted, never used, never withdrawn) is room the node keeps itself out of
+        for t in led.live_tokens(side="p", status="pending"):
+            n, e = t.node, t.edge
+            if n is None or getattr(n, "blocking", None) is not True or tname(e) not in ("Buffer", "Fleet"):
+                continue
+            others = [g for g in led.live_tokens(e, "p", "granted") if g.node is not n]
+            own = [g for g in led.live_tokens(e, "p", "granted") if g.node is n]
+            free = e.capacity - led.held(e) - len(others)
+            if free > 0 and own and all(g.t_grant is not None and g.t_grant < now - EPS for g in own):
+                led.V("C09", "blocking-leaves-when-an-edge-accepts", "blocking %s %s waits for space on %s at the end of instant %s although it holds %d of %d places: the rest is only taken by %d reservation(s) %s itself was granted earlier and never used"
+                      % (tname(n), n.id, e.id, now, led.held(e), e.capacity, len(own), n.id), node=tname(n), own_stale_reservation=True)
+                return
         # decision correctness: a discard happens only when no permitted edge answered can_put() == True in that instant
         for (t, nid, it) in led.discards:
             if abs(t - now) > EPS:
